@@ -42,10 +42,10 @@ RUNS = {  # (quick, thorough)
 # which violation kinds belong to which property (Appendix B); everything else seen in a world is logged as
 # "other_findings" and left to the property that owns it
 RELEVANT = {
-    "C07": {"dispatch-dependent-output", "crash"},
+    "C07": {"dispatch-dependent-output", "crash", "guard-page"},
     "C11": {"asan", "garbage-dependent-output", "leak", "frame-write", "crash", "guard-page"},
-    "C12": {"race", "schedule-dependent-output", "frozen-write", "deadlock", "crash"},
-    "C15": {"history-dependent-output", "crash"},
+    "C12": {"race", "schedule-dependent-output", "frozen-write", "deadlock", "crash", "guard-page"},
+    "C15": {"history-dependent-output", "crash", "guard-page"},
     "C16": {"model-mismatch"},
     "C18": {"frozen-write", "ro-write", "source-modified"},
 }
@@ -163,13 +163,17 @@ def classify_event(binary, world, variant, flavour, line):
         if kv.get("call", "-1") == "-1":
             return Finding(world, variant, flavour, run, seed, "harness-error", op, line, extra)
         if sig in (11, 7) and kv.get("block", "-1") != "-1":
-            if kv.get("frozen") == "1":
-                return Finding(world, variant, flavour, run, seed, "frozen-write", op, "write to an immutable shared object (%s block, offset %s) in %s (%s) during %s" % ("library" if kv.get("islib") == "1" else "harness", kv.get("off"), fn, loc, op), extra)
-            if kv.get("ro") == "1":
-                return Finding(world, variant, flavour, run, seed, "ro-write", op, "write to a read-only source operand (slot %s, offset %s) in %s (%s) during %s" % (kv.get("owner"), kv.get("off"), fn, loc, op), extra)
+            off, size = int(kv.get("off", 0)), int(kv.get("size", 0))
+            inside = 0 <= off < max(size, 1) and size > 0
+            wr = kv.get("write", "1") == "1"
+            acc = "write" if wr else "read"
             if kv.get("live") == "0":
-                return Finding(world, variant, flavour, run, seed, "crash", op, "use after free of simulated block in %s (%s) during %s" % (fn, loc, op), extra)
-            return Finding(world, variant, flavour, run, seed, "guard-page", op, "access outside the declared extent (block owner %s, offset %s of %s bytes) in %s (%s) during %s" % (kv.get("owner"), kv.get("off"), kv.get("size"), fn, loc, op), extra)
+                return Finding(world, variant, flavour, run, seed, "guard-page", op, "%s of a released block (use after free / far out of bounds) in %s (%s) during %s" % (acc, fn, loc, op), extra)
+            if inside and wr and kv.get("frozen") == "1":
+                return Finding(world, variant, flavour, run, seed, "frozen-write", op, "write to an immutable shared object (%s block, offset %s) in %s (%s) during %s" % ("library" if kv.get("islib") == "1" else "harness", kv.get("off"), fn, loc, op), extra)
+            if inside and wr and kv.get("ro") == "1":
+                return Finding(world, variant, flavour, run, seed, "ro-write", op, "write to a read-only source operand (slot %s, offset %s) in %s (%s) during %s" % (kv.get("owner"), kv.get("off"), fn, loc, op), extra)
+            return Finding(world, variant, flavour, run, seed, "guard-page", op, "%s outside the declared extent (block owner %s, offset %s of %s bytes) in %s (%s) during %s" % (acc, kv.get("owner"), kv.get("off"), kv.get("size"), fn, loc, op), extra)
         return Finding(world, variant, flavour, run, seed, "crash", op, "signal %d in %s (%s) during %s" % (sig, fn, loc, op), extra)
     return Finding(world, variant, flavour, run, seed, "crash", op, line, extra)
 
@@ -243,6 +247,24 @@ def findings_of(binary, world, variant, flavour, res, events):
     return out
 
 
+def drop_calls(prog, idx):
+    """removes the calls at array positions idx; repeat_of (an array position) follows"""
+    remap, k = {}, 0
+    for j in range(len(prog["calls"])):
+        if j in idx:
+            continue
+        remap[j] = k
+        k += 1
+    calls = []
+    for j, c in enumerate(prog["calls"]):
+        if j in idx:
+            continue
+        c["repeat_of"] = remap.get(c.get("repeat_of", -1), -1)
+        c["i"] = remap[j]
+        calls.append(c)
+    prog["calls"] = calls
+
+
 def minimise(binary, world, variant, flavour, path, target_cls, budget_s=45):
     """greedy delta debugging on the explicit replay file while the same violation class persists"""
     t0 = time.time()
@@ -272,21 +294,17 @@ def minimise(binary, world, variant, flavour, path, target_cls, budget_s=45):
                 if time.time() - t0 > budget_s:
                     break
                 cand = json.loads(json.dumps(spec))
-                calls = [c for c in cand["program"]["calls"] if c["task"] != t]
-                if len(calls) == len(cand["program"]["calls"]):
+                idx = {k for k, c in enumerate(cand["program"]["calls"]) if c["task"] == t}
+                if not idx:
                     continue
-                cand["program"]["calls"] = calls
+                drop_calls(cand["program"], idx)
                 if still_fails(cand):
                     spec, prog, changed = cand, cand["program"], True
         # 2. drop single calls, last first
         i = len(prog["calls"]) - 1
         while i >= 0 and time.time() - t0 < budget_s:
             cand = json.loads(json.dumps(spec))
-            removed = cand["program"]["calls"].pop(i)
-            # calls that repeat the removed one lose their reference
-            for c in cand["program"]["calls"]:
-                if c.get("repeat_of", -1) == removed["i"]:
-                    c["repeat_of"] = -1
+            drop_calls(cand["program"], {i})
             if still_fails(cand):
                 spec, prog, changed = cand, cand["program"], True
             i -= 1
@@ -304,11 +322,6 @@ def minimise(binary, world, variant, flavour, path, target_cls, budget_s=45):
                     else:
                         j += step
                 step //= 2
-    # renumber call indices for readability (repeat_of follows)
-    remap = {c["i"]: k for k, c in enumerate(prog["calls"])}
-    for c in prog["calls"]:
-        c["repeat_of"] = remap.get(c.get("repeat_of", -1), -1)
-        c["i"] = remap[c["i"]]
     json.dump(spec, open(path, "w"), indent=None)
     try:
         os.remove(path + ".cand")
@@ -511,11 +524,23 @@ def main():
             print("MACHINERY: replay of run %d did not reproduce %s (got %s)" % (f.run, cls, [g.cls() for g in got]))
             return 2
         # confirmations that keep a check from alarming on somebody else's property
-        if prop == "C12" and f.kind in ("schedule-dependent-output", "crash"):
+        if prop == "C07" and f.kind in ("crash", "guard-page"):
+            # a crash belongs to C07 only if it depends on the detected CPU features: same program, one mask for both
+            r2, e2, _ = replay_once(binary, path, ["--same-mask"])
+            if e2 or r2 is None:
+                other["crash-independent-of-dispatch:%s" % f.op] += len(fl_list)
+                continue
+        if prop == "C15" and f.kind in ("crash", "guard-page"):
+            # a crash belongs to C15 only if it depends on alignment / previous memory contents
+            r2, e2, _ = replay_once(binary, path, ["--calm"])
+            if e2 or r2 is None:
+                other["crash-independent-of-memory-plan:%s" % f.op] += len(fl_list)
+                continue
+        if prop == "C12" and f.kind in ("schedule-dependent-output", "crash", "guard-page"):
             # pristine serial reference in a fresh process: if it differs from the in-process serial re-execution, the
             # difference is history dependence (C15), not the interleaving
             r2, e2, _ = replay_once(binary, path, ["--serial-only"])
-            if f.kind == "crash" and e2:
+            if f.kind in ("crash", "guard-page") and (e2 or r2 is None):
                 other["crash-also-serial:%s" % f.op] += len(fl_list)
                 continue
             if f.kind == "schedule-dependent-output" and r2 and res and r2.get("task_hash_serial") != res.get("task_hash_serial"):
